@@ -1,4 +1,5 @@
 mod c01;
+mod c03;
 mod c04;
 mod c05;
 mod c07;
@@ -7,6 +8,7 @@ mod enum_fol;
 mod dom;
 mod enum_asp;
 mod ground;
+mod prob;
 mod refsem;
 mod report;
 mod sem;
@@ -55,6 +57,7 @@ fn main() {
             "C07" => c07::replay(c07::Mode::C07, &v),
             "C05" => c05::replay(&v),
             "C04" => c04::replay(&v),
+            "C03" => c03::replay(&v),
             "C17" => c17::replay(&v),
             "C18" => c07::replay(c07::Mode::C18, &v),
             _ => {
@@ -71,6 +74,7 @@ fn main() {
         "C07" => c07::run(c07::Mode::C07, &run),
         "C05" => c05::run(&run),
         "C04" => c04::run(&run),
+        "C03" => c03::run(&run),
         "C17" => c17::run(&run),
         "C18" => c07::run(c07::Mode::C18, &run),
         _ => {
